@@ -659,6 +659,36 @@ func buildIllegal(kind string, sub int, legal bool) []*sg.Mod {
 		dev.Deviations = []*sg.Deviation{{Target: tg, Deviates: []sg.Deviate{{Kind: "add", Stmts: []string{`must "a";`}}}}}
 		mods = append(mods, dev)
 	}
+	// the more obsolete definition may be written in a submodule of the module: a submodule is part of its module, the
+	// reference is one within the module all the same
+	switch kind {
+	case "current-type-obsolete-typedef", "deprecated-type-obsolete-typedef", "current-iffeature-deprecated-feature", "current-base-deprecated-identity", "current-uses-deprecated-grouping":
+		if v(3) == 1 {
+			sub := &sg.Mod{Name: "m0-sub", Prefix: "m0", BelongsTo: "m0"}
+			switch kind {
+			case "current-iffeature-deprecated-feature":
+				sub.Features, m.Features = m.Features, nil
+			case "current-base-deprecated-identity":
+				sub.Identities, m.Identities = m.Identities[:1], m.Identities[1:]
+			case "current-uses-deprecated-grouping":
+				var keep []*sg.Grouping
+				for _, g := range m.Groupings {
+					if g.Status != "" && len(g.Kids) > 0 && g.Kids[0].Kind != "uses" {
+						sub.Groupings = append(sub.Groupings, g)
+					} else {
+						keep = append(keep, g)
+					}
+				}
+				m.Groupings = keep
+			default:
+				sub.Typedefs, m.Typedefs = m.Typedefs, nil
+			}
+			if len(sub.Features)+len(sub.Identities)+len(sub.Groupings)+len(sub.Typedefs) > 0 {
+				m.Includes = append(m.Includes, "m0-sub")
+				mods = append(mods, sub)
+			}
+		}
+	}
 	return mods
 }
 
@@ -683,7 +713,7 @@ func checkIllegal(c IllegalCase) fw.Outcome {
 var illegalProp = fw.Register(&fw.Prop[IllegalCase]{
 	ID: "C14", Name: "illegal",
 	Rule: "illegal constructions (kind x variation: nesting of the construction 0-2 levels deep through containers, lists and choice/case, own-prefix spelling of references, order and kind of the deviates), each with a legal twin that differs in one statement: config true under config false (direct, deep, through a grouping), status strengthened below a weaker parent, " +
-		"a current/deprecated definition referencing a more obsolete typedef / grouping / feature / identity of its own module, a current/deprecated refine, uses-augment or augment whose path names a more obsolete node of its own module (as last or inner element), deviate add of an existing single-instance property, delete of a missing or differently valued " +
+		"a current/deprecated definition referencing a more obsolete typedef / grouping / feature / identity of its own module (written in the module or in a submodule of it), a current/deprecated refine, uses-augment or augment whose path names a more obsolete node of its own module (as last or inner element), deviate add of an existing single-instance property, delete of a missing or differently valued " +
 		"property, replace of a missing property, replace of a property that cannot be replaced (description, reference, status, when), not-supported next to another deviate, a property not allowed on the target, an unknown target; oracle: the twin compiles, the illegal variant is rejected",
 	Gen: func(t *rapid.T) IllegalCase {
 		return IllegalCase{Kind: illegalKinds[rapid.IntRange(0, len(illegalKinds)-1).Draw(t, "kind")], Sub: rapid.IntRange(0, 9999).Draw(t, "sub")}
